@@ -192,7 +192,9 @@ fn point(c: &Case, obs: &mut Obs) -> PropResult {
             // the reference evaluated on the f32-rounded input
             let w32 = rf::forward([x.x as f64, x.y as f64, x.z as f64], &cond);
             ensure!(rel(f.lightness as f64, w32.j) <= 2e-3 && rel(f.brightness as f64, w32.q) <= 2e-3, "f32 J/Q = {}/{} but f64 reference {}/{}", f.lightness, f.brightness, w32.j, w32.q);
-            if w32.m > 1.0 {
+            // (colourfulness beyond anything a stimulus can have - negative tristimulus values of the gamut halo drive the
+            // denominator t towards zero and M into the millions - is not compared in f32: no accuracy is left there)
+            if w32.m > 1.0 && w32.m < 1000.0 {
                 ensure!(rel(f.colorfulness as f64, w32.m) <= 5e-3 && ang(f.hue.into_positive_degrees() as f64, w32.h) <= 0.5, "f32 M/h = {}/{} but f64 reference {}/{} (xyz {:?}, {:?})", f.colorfulness, f.hue.into_positive_degrees(), w32.m, w32.h, xyz, vc);
             }
         }
